@@ -63,6 +63,21 @@ def fam_detach(extra):
     return prog
 
 
+def fam_uncache(maxops):
+    """one component, a named, a global and a catch-all handler for the same event; the dispatch of an
+    event fills the handler cache, removing / adding any of them afterwards must be reflected"""
+    return {
+        'comps': {'1': {'chan': 'a'}},
+        'handlers': {
+            '1': _h(1, ['x'], None, 1, {'x': [['ret', 1]]}),
+            '2': _h(1, [], '*', 0),              # global
+            '3': _h(1, [], None, -1),            # catch-all on the component's channel
+        },
+        'ext': [{'name': 'x', 'ch': None}],
+        'ops': ['fire', 'flush', 'rmh', 'addh'], 'pre': [], 'maxops': maxops, 'firers': [1], 'flushers': [1], 'dyn': [1, 2, 3],
+    }
+
+
 def fam_leave(extra):
     """events dispatched by the old tree while an unregistration is pending (the leaving component
     still receives them) and after it has completed (it must not): the handler cache must be
@@ -137,6 +152,7 @@ def run(tier, replay=None):
             {'name': 'structure', 'programs': [fam_structure(4 if quick else 5)], 'hist_programs': [fam_structure(3 if quick else 4)]},
             {'name': 'detach', 'programs': [fam_detach(5)], 'hist_programs': [fam_detach(5)]},
             {'name': 'leave', 'programs': [fam_leave(5)], 'hist_programs': [fam_leave(5)]},
+            {'name': 'uncache', 'programs': [fam_uncache(5)], 'hist_programs': [fam_uncache(5)], 'hist_cap_quick': 2500},
         ],
         'teeth': [{'name': 'detach/StaleCache', 'programs': [fam_detach(5)], 'variants': {'StaleCache': True},
                    'expect': {'CacheCoherent', 'ConformsC01'}}],
